@@ -116,13 +116,56 @@ def wide_all_program(seed=None, pid="wideall"):
     return {"id": pid, "funs": funs, "top": top, "order": order, "recs": [], "uns": [], "feat": ["fixed", "extreme"], "seed": 0}
 
 
+def cross_unit_programs():
+    """Hand-built programs that keep the two cross-unit inlining findings visible (client at -Q9 against a library at -Q2):
+    a generator-valued library function calling another library function; a library function that throws an exception
+    declared in the library and is caught in the client.  Each comes with the indices of its library functions."""
+    from progen import lit, prim, var, SI, UNIT
+    nl = {"e": "str", "s": "\n"}
+
+    def fun(name, ps, pts, rt, body, pure=False):
+        return {"name": name, "ps": ps, "pts": pts, "rt": rt, "body": body, "pure": pure}
+
+    def pr(*a):
+        return {"e": "print", "args": list(a) + [nl]}
+    f1 = fun("ga", [], [], SI, {"e": "seq", "t": SI, "es": [pr({"e": "str", "s": "a"}), lit(SI, 1)]})
+    f6 = fun("gb", ["p"], [SI], ["gen", SI],
+             {"e": "gen", "et": SI, "body": {"e": "seq", "t": UNIT, "es": [{"e": "yield", "v": {"e": "call", "fi": 1, "args": []}},
+                                                                          {"e": "yield", "v": var("p")}]}})
+    f11 = fun("gc", ["q"], [SI], SI,
+              {"e": "let", "x": "v", "t": SI, "v": var("q"),
+               "body": {"e": "seq", "t": SI, "es": [{"e": "forin", "x": "e", "et": SI, "src": {"e": "call", "fi": 2, "args": [var("q")]},
+                                                     "body": {"e": "seq", "t": UNIT, "es": [{"e": "asg", "x": "v", "v": lit(SI, -3)}]}},
+                                                    var("g9")]}})
+    gen = {"id": "xunit_gen", "funs": [f1, f6, f11], "recs": [], "uns": [], "feat": ["fixed", "gen"], "seed": 0,
+           "top": [{"d": "var", "x": "g9", "t": SI, "init": lit(SI, 5)},
+                   {"d": "stmt", "x": pr({"e": "call", "fi": 3, "args": [lit(SI, 2)]})}],
+           "order": [["f", 0], ["f", 1], ["t", 0], ["f", 2], ["t", 1]]}
+    th = fun("ta", ["p"], [SI], SI,
+             {"e": "seq", "t": SI, "es": [{"e": "exit", "c": prim("si.eq", var("p"), lit(SI, 0)), "v": {"e": "throw", "exn": "Ex0", "args": []}},
+                                          prim("si.add", var("p"), lit(SI, 41))]})
+    th["thrower"] = True
+    ca = fun("tb", ["q"], [SI], SI,
+             {"e": "try", "t": SI, "body": {"e": "call", "fi": 1, "args": [var("q")]},
+              "hs": [{"exn": "Ex0", "ps": [], "body": lit(SI, 7)}], "fin": {"e": "none"}})
+    thr = {"id": "xunit_throw", "funs": [th, ca], "recs": [], "uns": [], "exns": ["Ex0"], "feat": ["fixed", "try"], "seed": 0,
+           "top": [{"d": "stmt", "x": pr({"e": "call", "fi": 2, "args": [lit(SI, 0)]}, {"e": "str", "s": " "},
+                                         {"e": "call", "fi": 2, "args": [lit(SI, 1)]})}],
+           "order": [["f", 0], ["f", 1], ["t", 0]]}
+    return [(gen, [0, 1]), (thr, [0])]
+
+
 def family(chk, n, sizes=(6, 10, 16)):
     base = (chk.seed + 5) % 1000003
-    progs = [wide_all_program(), wide_all_program(base, "widerand")]
+    progs = [wide_all_program(), wide_all_program(base, "widerand")] + [p for p, _ in cross_unit_programs()]
     for i in range(n):
         rf = random.Random(base * 31 + i)
-        feats = ["fun"] + [f for f in STABLE_FEATURES if rf.random() < 0.6] + [f for f in ("try", "mac") if rf.random() < 0.3]
-        g = progen.ProgGen(base * 100003 + i, features=feats, size=rf.choice(sizes))
+        feats = ["fun"] + [f for f in STABLE_FEATURES if rf.random() < 0.6] + [f for f in ("try", "mac") if rf.random() < 0.35]
+        # with exceptions: the dense sub-family (functions that throw, nested try drivers), so that a split can put the
+        # thrower into the library unit and leave the catcher in the client
+        g = progen.ProgGen(base * 100003 + i, features=feats, size=rf.choice(sizes), emph=("try",) if "try" in feats else ())
+        if "try" in feats:
+            g.exns = g.exns or ["Ex0", "Ex1", "Ex2"]
         # functions generated before any file-level variable exists cannot capture one: they can be moved into a library unit
         for _ in range(2):
             g.function()
@@ -207,10 +250,10 @@ class Job(object):
         libf = render.lib_closure(self.prog, [i for k, i in moved if k == "f"])
         libd = [i for k, i in moved if k == "d"]
         libref = "plib.ao" if s["form"] == "ao" else "libplib.al"
-        lib_text, client_text = render.render_split(self.prog, libf, libref=libref, lib_doms=libd)
+        lib_text, client_text = render.render_split(self.prog, libf, libref=libref, lib_doms=libd, lib_exns=bool(self.prog.get("exns")))
         open(os.path.join(d, "plib.as"), "w").write(lib_text)
         open(os.path.join(d, "p.as"), "w").write(client_text)
-        res = {"split": s, "dir": d, "lib_ok": False, "run": None,
+        res = {"split": s, "dir": d, "lib_ok": False, "run": None, "lib_throws": any(render._throws(self.prog["funs"][i]["body"]) for i in libf),
                "lib_funs": [self.prog["funs"][i]["name"] for i in libf] + [self.prog["doms"][i]["name"] for i in libd]}
 
         def aldor(args, timeout=units.Tree.TIMEOUT):
@@ -295,20 +338,28 @@ def run(chk, tier):
     sdeck = list(splits)
     rnd.shuffle(sdeck)
     pi = si = 0
+    xunit = {p["id"]: funs for p, funs in cross_unit_programs()}
     for j in jobs:
         chosen = {}
-        for _ in range(min(per_prog, len(deck))):
+        for _ in range(min(6 if j.pid in xunit else per_prog, len(deck))):
             p = deck[pi % len(deck)]
             pi += 1
             chosen[(p["level"], tuple(p["chain"]), p["final"])] = p
         if j.pid == "wideall" or (j.pid == "widerand" and not quick):
             chosen = {(p["level"], tuple(p["chain"]), p["final"]): p for p in indirect if len(p["chain"]) <= (1 if quick else 4)}
-        if j.prog is not None:
-            el = render.lib_eligible(j.prog)
-            if len(el) >= 3 and not j.prog.get("exns"):        # exception categories are defined per unit: such programs are not split
+        if j.pid in xunit:
+            # fixed splits: everything movable in the library, library at -Q2 / client at -Q9 (cross-unit inlining) and -Q0 / -Q0
+            j.movable = [("f", i) for i in xunit[j.pid]]
+            lib = list(range(1, len(j.movable) + 1))
+            j.splits = [{"lib": lib, "form": "ao", "qlib": ql, "qclient": qc, "route": r}
+                        for (ql, qc) in (("Q2", "Q9"), ("Q0", "Q0")) for r in ("run", "exe")]
+        elif j.prog is not None:
+            el = render.lib_eligible(j.prog, throwers=bool(j.prog.get("exns")))
+            if len(el) >= 3:
                 # the three movable definitions of Units.tla: top-level domains when the program has some, and functions
                 own = [i for i in el if not j.prog["funs"][i]["name"].startswith(("x", "wf"))]
                 rnd.shuffle(own)
+                own.sort(key=lambda i: not render._throws(j.prog["funs"][i]["body"]))      # functions that throw first
                 rest = [i for i in el if i not in own]
                 rnd.shuffle(rest)
                 doms = list(range(len(j.prog.get("doms", []))))
@@ -551,7 +602,9 @@ def report(chk, bad, ev, rec, direct_forms, values, huge):
                 detail["first_difference"] = units.first_diff(before.decode("latin-1"), after.decode("latin-1"))
     else:
         s = rec["splitres"]["split"]
-        key.update(split_form=s["form"], route=s["route"], qlib=s["qlib"], qclient=s["qclient"])
+        # cross_inline: the levels at which the client inlines code of the library unit (client -Q3 or more, library -Q2 or more)
+        key.update(split_form=s["form"], route=s["route"], qlib=s["qlib"], qclient=s["qclient"],
+                   cross_inline=(s["qclient"] == "Q9" and s["qlib"] in ("Q2", "Q9")), lib_throws=bool(rec["splitres"].get("lib_throws")))
         detail.update(split=s, lib_funs=rec["splitres"]["lib_funs"])
     if res is not None:
         if ev["ev"] in ("Final", "LinkRun") and ev.get("ok") and res.get("phase"):
